@@ -127,12 +127,20 @@ def mathConst : Native → Float
   | .tau => Float.ofBits 0x401921FB54442D18
   | _ => 0
 
+/-- Rust's `f64::asinh` / `acosh` are computed by formulas (`ln_1p(ax + ax / (hypot(1, 1/ax) + 1/ax))`,
+`ln(x + sqrt(x-1) * sqrt(x+1))`) whose intermediate `ax + ax` overflows for |x| >= 2^1023: the result is
+an infinity there (the true value is about 710). Elsewhere they agree with libm within a few ulp. -/
+def rustAsinh (x : Float) : Float :=
+  if (x.abs + x.abs).isInf then (if x < 0 then -(x.abs + x.abs) else x.abs + x.abs) else Float.asinh x
+def rustAcosh (x : Float) : Float :=
+  if x < 1.0 then Float.acosh x else Float.log (x + Float.sqrt (x - 1.0) * Float.sqrt (x + 1.0))
+
 /-- one-argument MATH procedures: the `f64` method each one names -/
 def math1 : Native → Option (Float → Float)
   | .sin => some Float.sin | .cos => some Float.cos | .tan => some Float.tan
   | .asin => some Float.asin | .acos => some Float.acos | .atan => some Float.atan
   | .sinh => some Float.sinh | .cosh => some Float.cosh | .tanh => some Float.tanh
-  | .asinh => some Float.asinh | .acosh => some Float.acosh | .atanh => some Float.atanh
+  | .asinh => some rustAsinh | .acosh => some rustAcosh | .atanh => some Float.atanh
   | .exp => some Float.exp | .log10 => some Float.log10 | .log2 => some Float.log2
   | .round => some Float.round | .floor => some Float.floor | .ceil => some Float.ceil
   | .int => some F64.trunc
